@@ -201,6 +201,7 @@ func (m *machine) registerEnvReplacements() {
 	for name, repl := range map[string]string{
 		eb + "NewBus":  "NewStubBus",
 		vs + "DiskHas": "diskHasModel",
+		vs + "DirAlias": "dirAliasModel",
 		eb + "BufSize": "BusBufSize",
 		eb + "Name":    "BusName",
 	} {
